@@ -45,7 +45,7 @@ N0 == [id |-> 0, k |-> "leaf", ch |-> <<>>,
        content |-> FALSE, \* leaf/cont: written with text content instead of empty tag
        loc |-> <<>>,      \* g / reuse: attribute locals  << <<x, v>>, ... >>
        asg |-> <<>>,      \* var: assignments             << <<x, expr>>, ... >>
-       form |-> "-",      \* loop: "count" | "while" | "until"
+       form |-> "-",      \* loop: "count" | "while" | "until" | "for" (list of cnt items 1..cnt)
        cnt |-> 0,         \* loop count
        lv |-> "-",        \* loop variable
        start |-> 0, step |-> 1,
